@@ -51,7 +51,8 @@ def run(tier, seed):
             sc.imputer = ["joint", "product", "default", None][i % 4]
     traces, kept, fails = E.validate(ctx, scs, wanted_trace, "imputer calls inside IncrementalSage / IncrementalPFI runs")
     ctx.count_clause("trace.impute.*", sum(len(c["imputes"]) for t in traces for c in t["calls"]))
-    ctx.sample({"direction": "B", "scenario": kept[0].key(),
+    if traces:
+      ctx.sample({"direction": "B", "scenario": kept[0].key(),
                 "impute_events": traces[0]["calls"][1]["imputes"][:2] if len(traces[0]["calls"]) > 1 else None})
     ctx.assume("TreeImputer is covered by C19")
     return ctx.finish()
